@@ -238,13 +238,24 @@ def coq_bad(ctx, tag, fn, eqb, in_ty, out_ty, pairs):
     if not pairs:
         return []
     return core.coq_mismatches(ctx.work, tag, IMPORTS, fn=fn, eqb=eqb, in_ty=in_ty, out_ty=out_ty, pairs=pairs,
-                               shard=max(40, min(400, (len(pairs) + core.NCPU - 1) // core.NCPU)))
+                               shard=max(300, (len(pairs) + 11) // 12))
 
 
 def coq_bools(ctx, tag, fn, in_ty, inputs):
     """Evaluate a boolean Coq function on inputs: list of python bools."""
     bad = set(coq_bad(ctx, tag, fn, "Bool.eqb", in_ty, "bool", [(x, True) for x in inputs]))
     return [i not in bad for i in range(len(inputs))]
+
+
+def coq_verdicts(ctx, tag, fn, in_ty, inputs):
+    """Evaluate an N-valued verdict function (0 / 1 / 2) with at most two Coq runs."""
+    bad0 = coq_bad(ctx, tag + "0", fn, "N.eqb", in_ty, "N", [(x, 0) for x in inputs])
+    out = [0] * len(inputs)
+    if bad0:
+        bad1 = set(coq_bad(ctx, tag + "1", fn, "N.eqb", in_ty, "N", [(inputs[i], 1) for i in bad0]))
+        for k, i in enumerate(bad0):
+            out[i] = 2 if k in bad1 else 1
+    return out
 
 
 def agg_expected(u, out):
@@ -487,25 +498,28 @@ def stage_is_trivial(ctx, st, G):
     ctx.cov["families"].setdefault("model==impl:is_trivial", {"cases": len(cases), "nontrivial": len(cases)})["mismatches"] = len(bad)
 
 
-def mayinv_eval(ctx, tag, pairs):
+def mayinv_eval(ctx, tag, pairs, detail=False):
     """For (new, cur_values) pairs: real may_invalidate, and where it says false the real merge and the
-    Coq-evaluated property on the real outputs.  Returns list of dicts."""
+    Coq-evaluated verdict of the property on the real outputs.  Returns list of dicts."""
     mi = hrun([("MayInv", new, cs(cur)) for new, cur in pairs])
-    res = [{"mi": m} for m in mi]
+    res = [{"mi": m, "holds": True, "f1": False} for m in mi]
     idx = [i for i, m in enumerate(mi) if m is False]
     roots = [[Pair(KINDS3["TLC".index(gkind(t))], 0) for t in pairs[i][1]] for i in idx]
     mg = hrun([("Merge", roots[j], cs(pairs[i][1]), cs(pairs[i][0])) for j, i in enumerate(idx)])
     ok_idx = [(j, i) for j, i in enumerate(idx) if not is_panic(mg[j])]
-    var = coq_bools(ctx, tag + "_var", "chk_variant", "list tm * list tm", [Pair(mg[j][1], pairs[i][1]) for j, i in ok_idx])
-    inst = coq_bools(ctx, tag + "_inst", "chk_inst_list", "list tm * list tm", [Pair(pairs[i][0], pairs[i][1]) for j, i in ok_idx])
-    rep = coq_bools(ctx, tag + "_rep", "chk_repeats", "list tm", [pairs[i][1] for j, i in ok_idx])
-    f1 = coq_bools(ctx, tag + "_f1", "chk_f1_class", "list tm * csubst", [Pair(pairs[i][0], cs(pairs[i][1])) for j, i in ok_idx])
-    for (j, i), v, s, rp, f in zip(ok_idx, var, inst, rep, f1):
-        res[i].update({"merged": mg[j], "variant": v, "instance": s, "repeats": rp, "f1": f,
-                       "holds": s and (rp or v)})
+    q = [Pair(Pair(pairs[i][0], pairs[i][1]), mg[j][1]) for j, i in ok_idx]
+    ver = coq_verdicts(ctx, tag + "_v", "chk_mi_verdict", "(list tm * list tm) * list tm", q)
+    for (j, i), v in zip(ok_idx, ver):
+        res[i].update({"merged": mg[j], "verdict": v, "holds": v == 0, "f1": v == 1})
+    if detail:
+        var = coq_bools(ctx, tag + "_var", "chk_variant", "list tm * list tm", [Pair(mg[j][1], pairs[i][1]) for j, i in ok_idx])
+        inst = coq_bools(ctx, tag + "_inst", "chk_inst_list", "list tm * list tm", [Pair(pairs[i][0], pairs[i][1]) for j, i in ok_idx])
+        rep = coq_bools(ctx, tag + "_rep", "chk_repeats", "list tm", [pairs[i][1] for j, i in ok_idx])
+        for (j, i), v, s_, rp in zip(ok_idx, var, inst, rep):
+            res[i].update({"variant": v, "instance": s_, "repeats": rp})
     for j, i in enumerate(idx):
         if is_panic(mg[j]):
-            res[i].update({"merged": mg[j], "holds": True, "f1": False, "merge_panicked": True})
+            res[i].update({"merged": mg[j], "merge_panicked": True})
     return res
 
 
@@ -571,7 +585,7 @@ def stage_may_invalidate(ctx, st, G):
                 return [x["mi"] is False and not x.get("holds", True) and not x.get("f1", False) for x in rr]
             sh = shrink_terms(new + cur, fails, rounds=8)
             new2, cur2 = sh[:len(new)], sh[len(new):]
-            r2 = mayinv_eval(ctx, "mi_rep", [(new2, cur2)])[0]
+            r2 = mayinv_eval(ctx, "mi_rep", [(new2, cur2)], detail=True)[0]
             st.violation({"kind": "property", "law": "may_invalidate_conservative", "op": "MayInv", "new": sx.to_sexp(new2), "current": sx.to_sexp(cur2),
                           "real_may_invalidate": False, "real_merged_guidance": sx.to_sexp(r2.get("merged", "n/a"))[:2000],
                           "new_is_instance_of_current": r2.get("instance"), "merged_is_variant_of_current": r2.get("variant"),
@@ -746,12 +760,11 @@ def stage_e2e(ctx, st):
             continue
         q.append(Pair(known, g))
         meta.append((name, prog, goal, known, s))
-    good = coq_bools(ctx, "e2e", "chk_inst_list", "list tm * list tm", q)
-    reps = coq_bools(ctx, "e2e_rep", "chk_repeats", "list tm", [x[1] for x in q])
-    for (name, prog, goal, known, s), ok, rep in zip(meta, good, reps):
-        if ok:
+    ver = coq_verdicts(ctx, "e2e", "chk_e2e_verdict", "list tm * list tm", q)
+    for (name, prog, goal, known, s), v in zip(meta, ver):
+        if v == 0:
             continue
-        f = ctx.match_known(None, F1_CLASS) if rep else None
+        f = ctx.match_known(None, F1_CLASS) if v == 1 else None
         if f is not None:
             ctx.known_finding(f, "SLG end to end (%s): %s yields %s although %s is a solution" % (name, goal, sx.to_sexp(s)[:200], sx.to_sexp(known)))
         else:
@@ -826,7 +839,7 @@ def replay(ctx, obj):
         return 0 if good else 1
     if op == "MayInv":
         new, cur = P(obj["new"]), P(obj["current"])
-        r = mayinv_eval(ctx, "replay", [(new, cur)])[0]
+        r = mayinv_eval(ctx, "replay", [(new, cur)], detail=True)[0]
         print({k: (sx.to_sexp(v) if k == "merged" else v) for k, v in r.items()})
         return 1 if (r["mi"] is False and not r.get("holds", True) and not r.get("f1", False)) else 0
     if op == "MergeSeq":
